@@ -493,6 +493,20 @@ def _run_case(ctx, case):
                 judge_probe("reset()")
                 ctx.count("resets_inside_history")
                 traces.append(("reset",) + tuple(query_burst(ctx, run, mirror, rng, 3, 12)))
+            if case["seed"] % 9 == 7 and steps == 1 and probe is None and quitter is None:
+                # a deep copy of the dispatcher goes its own way for a few steps; the answers of the
+                # original (and of its observers) are those of its own history
+                import copy
+                dup = Run(case["instance"], case.get("filter"), dispatcher=copy.deepcopy(run.d))
+                dup.instance = dup.d.instance
+                dup.ops = [op for job in dup.instance.jobs for op in job]
+                dup.r = run.r.clone()
+                for _ in range(rng.randint(1, 3)):
+                    if dup.done():
+                        break
+                    o8, m8 = dup.choose(rng, "random_ready"); dup.dispatch(o8, m8)
+                ctx.count("deep_copies_advanced_mid_history")
+                query_burst(ctx, run, mirror, rng, 4, 10)
             pol = case["policy"]
             o, m = run.choose(rng, pol if pol != "mixed" else rng.choice(gen.POLICIES))
             run.dispatch(o, m)
